@@ -222,7 +222,8 @@ def oracle(case, out):
                              f'{"inner " if name == "many_inner" else ""}state {row[k]} (frame {t})')]
         return []
     pts_ = [tuple(c % 8 for c in p) for p in case['sites8']]
-    if case['mode'] == 'auto' and len(set(pts_)) < len(pts_) and not out.get('too_close'):
+    # (a trajectory without any vibration gives the automatic radius 0: spheres of radius 0 do not overlap, nothing to reject)
+    if case['mode'] == 'auto' and len(set(pts_)) < len(pts_) and not out.get('too_close') and not out.get('auto_radius') == 0.0:
         return [('sites/auto-radius-overlap', f'two listed sites coincide (sites/8 {case["sites8"]}): with the automatic radius their spheres overlap completely, yet no '
                  f'"too close" error was raised (radius {out.get("auto_radius")})')]
     if out.get('too_close'):
